@@ -21,13 +21,15 @@ kinds with 1..n elements (multi_output registry point), element order = order of
 A line token is the literal line, except "@LONG" = a 70 000 character line.  Files and command
 outputs are rendered with every line terminated by "\\n".
 """
+import contextlib
 import itertools
 import json
 import os
 import shutil
 
 LONG = ("abcdefghi" + "ü") * 7000          # 70 000 characters, 77 000 bytes; a 2-byte character straddles byte 32768
-TOKENS = ["", "a", " lead", "trail ", "tab\tx", "ü", "日本", "\U0001d11e", "\x0c", "@LONG"]
+TOKENS = ["", "a", " lead", "trail ", "tab\tx", "ü", "日本", "\U0001d11e", "\x0c", "\ufeffbom", "@LONG"]
+# "\ufeffbom": U+FEFF is neither a line break nor a surrogate; a reader using a BOM-stripping codec loses it on a first line
 SINGLE = ("text", "raw", "cmd", "cmd_real", "ds_list", "ds_str")
 MODULE = "verif_c11"
 
@@ -296,10 +298,80 @@ def meta_path(b, i, out=None):
     return os.path.join(out or b.out, "meta_data", env().dr.get_name(b.points[i]) + ".json")
 
 
-def load(b, out=None):
-    """Real loading: archive detection + hydrate into a fresh broker."""
+class _Scan(object):
+    """What os.scandir returns (iterator + context manager + close), over a fixed list of DirEntry objects."""
+
+    def __init__(self, entries):
+        self._it = iter(entries)
+
+    def __iter__(self):
+        return self
+
+    def __next__(self):
+        return next(self._it)
+
+    def close(self):
+        pass
+
+    def __enter__(self):
+        return self
+
+    def __exit__(self, *a):
+        return False
+
+
+@contextlib.contextmanager
+def listing_order(directory, names_in_order):
+    """Owns the directory iteration order of ONE directory: while active, os.scandir / os.listdir (and therefore
+    glob.glob, os.walk) of `directory` yield the names in `names_in_order` first, in that order, then every other
+    name sorted. The result is always a permutation of the real listing. tmpfs order depends on creation
+    history, so without this a verdict could depend on how the archive copy was made."""
+    real_scandir, real_listdir = os.scandir, os.listdir
+    target = os.path.abspath(directory)
+    rank = dict((n, k) for k, n in enumerate(names_in_order))
+
+    def key(name):
+        return (rank.get(name, len(rank)), name)
+
+    def mine(path):
+        return isinstance(path, str) and os.path.abspath(path) == target
+
+    def scandir(path="."):
+        if mine(path):
+            with real_scandir(path) as it:
+                return _Scan(sorted(it, key=lambda ent: key(ent.name)))
+        return real_scandir(path)
+
+    def listdir(path="."):
+        if mine(path):
+            return sorted(real_listdir(path), key=key)
+        return real_listdir(path)
+
+    os.scandir, os.listdir = scandir, listdir
+    try:
+        yield
+    finally:
+        os.scandir, os.listdir = real_scandir, real_listdir
+
+
+def meta_names(b, order=None):
+    """Names inside meta_data/ in the order hydrate is to see them: for each spec index of `order` an optional
+    stray '<name>.junk' file directly followed by the spec's own entry."""
+    dr = env().dr
+    out = []
+    for i in (range(len(b.points)) if order is None else order):
+        n = dr.get_name(b.points[i])
+        out.extend([n + ".junk", n + ".json"])
+    return out
+
+
+def load(b, out=None, order=None):
+    """Real loading: archive detection + hydrate into a fresh broker. The order in which hydrate meets the
+    metadata entries is `order` (spec indices; default: index order)."""
     e = env()
-    ctx, broker = e.hydration.initialize_broker(out or b.out)
+    out = out or b.out
+    with listing_order(os.path.join(out, "meta_data"), meta_names(b, order)):
+        ctx, broker = e.hydration.initialize_broker(out)
     return ctx, broker
 
 
